@@ -3,6 +3,7 @@ import Complgen.Model.Quote
 import Complgen.Model.Pipeline
 import Complgen.Model.Parse
 import Complgen.Model.Dot
+import Complgen.Model.BashRt
 import Complgen.Cert.Search
 import Complgen.Cert.Canon
 import Complgen.Cert.Det
@@ -114,6 +115,58 @@ def completeOne (W : Spec.Complete.World) (cl : String) : String :=
     | [] => "bad-cmdline"
   | _ => "bad-cmdline"
 
+/-! ### tables of an emitted bash script on the wire:
+`lits=h,h;lt=q:i>t,i>t/q:…;ct=…;st=q>t,…;wt=…;ll=q:i.i/q:i|q:i;cl=…;wl=…;max=n` -/
+
+def parsePairs (s : String) : List (Nat × Nat) :=
+  ((s.splitOn ",").filter (· ≠ "")).filterMap fun p =>
+    match p.splitOn ">" with
+    | [a, b] => do some (← a.toNat?, ← b.toNat?)
+    | _ => none
+
+def parseRows (s : String) : List BashRt.Row :=
+  ((s.splitOn "/").filter (· ≠ "")).filterMap fun r =>
+    match r.splitOn ":" with
+    | [q, ps] => do some (← q.toNat?, parsePairs ps)
+    | _ => none
+
+def parseLevels (s : String) : List (List BashRt.LevelRow) :=
+  if s == "" then [] else
+  (s.splitOn "|").map fun lvl =>
+    ((lvl.splitOn "/").filter (· ≠ "")).filterMap fun r =>
+      match r.splitOn ":" with
+      | [q, ids] => do some (← q.toNat?, ((ids.splitOn ".").filter (· ≠ "")).filterMap (·.toNat?))
+      | _ => none
+
+def parseTables (s : String) : BashRt.Tables :=
+  let kv := (s.splitOn ";").filterMap fun f =>
+    match f.splitOn "=" with
+    | [k, v] => some (k, v)
+    | _ => none
+  let get := fun k => ((kv.find? (·.1 == k)).map (·.2)).getD ""
+  { literals := ((get "lits").splitOn ",").filter (· ≠ "") |>.filterMap Hex.decode,
+    litTrans := parseRows (get "lt"), cmdTrans := parseRows (get "ct"), star := parsePairs (get "st"),
+    subTrans := parseRows (get "wt"), litLevels := parseLevels (get "ll"), cmdLevels := parseLevels (get "cl"),
+    subLevels := parseLevels (get "wl"), maxLevel := ((get "max").toNat?).getD 0 }
+
+def parseOutIds (s : String) : Nat → List String :=
+  let rows : List (Nat × List String) := if s == "-" then [] else
+    (s.splitOn ";").filterMap fun row =>
+      match row.splitOn "=" with
+      | [c, ls] => do
+        let ls ← ((ls.splitOn ",").filter (· ≠ "")).mapM Hex.decode
+        some (← c.toNat?, ls.map Spec.Complete.field)
+      | _ => none
+  fun c => ((rows.find? (·.1 == c)).map (·.2)).getD []
+
+def bashrtOne (S : BashRt.Script) (start : Nat) (cl : String) : String :=
+  match (cl.splitOn ",").mapM Hex.decode with
+  | some (wb :: rest) =>
+    match rest.reverse with
+    | p :: wsRev => optListText (BashRt.complete S start wsRev.reverse p wb)
+    | [] => "bad-cmdline"
+  | _ => "bad-cmdline"
+
 def handle (line : String) : String :=
   let line := line.trimAscii.toString
   match line.splitOn " " with
@@ -192,6 +245,15 @@ def handle (line : String) : String :=
     match Hex.decode h with
     | some src => Dot.dumpText src
     | none => "bad-op"
+  | ["bashrt", start, out, main, subs, cls] =>
+    let S : BashRt.Script :=
+      { main := parseTables main,
+        subs := if subs == "-" then [] else (subs.splitOn "&").filterMap fun x =>
+          match x.splitOn "@" with
+          | [id, t] => do some (← id.toNat?, parseTables t)
+          | _ => none,
+        out := parseOutIds out }
+    "ok " ++ " ; ".intercalate ((cls.splitOn ";").map (bashrtOne S (start.toNat?.getD 0)))
   | ["labels"] =>
     "ok " ++ " ".intercalate (Gen.diagLabels.map fun (k, v) => s!"{Hex.encode k}:{Hex.encode v}")
   | ["canon", a] =>
